@@ -109,6 +109,9 @@ def run(ctx):
         if mode == "formula":
             tf_cases.append(case); tf_meta.append((info, ref))
         for be, res in results.items():
+            mod = res.pop("_inputs_modified", None)
+            if mod is not None:
+                bad("a representation modifies the points it is given (values or mask): the same points give another result the next time they are used", dict(info, backend=be), {"modified_inputs": mod}, {"clause": "inputs_modified", "backend": be})
             for name, r in res.items():
                 sig = {"representation": name, "backend": be}
                 if "error" in r:
